@@ -69,5 +69,30 @@ PROPS["C08"] = {
     ],
 }
 
+PROPS["C11"] = {
+    "quick_secs": 12,
+    "thorough_secs": 240,
+    "release_leg": False,
+    "totality": False,
+    "min_evaluations": 50000,
+    "technique": "differential monitor: falcon::graph::Graph algorithms vs brute-force textbook definitions; exhaustive over all digraphs on <=3 (thorough: <=4) vertices x every root; edit histories vs set model",
+    "rule": "every digraph (self-loops included) on 1..3 vertices (thorough: 4 vertices, 65536 graphs) x every root, plus random graphs of 3-14 "
+            "vertices with sparse ids, irreducible cores and unreachable parts, plus random insert/remove histories checked against a set model "
+            "after each step. Compared per graph and root: reachable/unreachable sets, dominators, immediate dominators, dominator tree, dominance "
+            "frontiers (reachable vertices), natural loops, loop tree, reducibility, acyclicity, pre/post order validity, DFS tree, acyclic version, "
+            "transitive predecessors, topological order, and all adjacency views. Non-trivial/distinct = (vertex count, edge-count bucket, "
+            "unreachable present, reducible, loop structure).",
+    "exhaustive_part": "all digraphs with self-loops on <=3 vertices (quick) / <=4 vertices (thorough), every root",
+    "level_text": "Exhaustive on small graphs (a finite space fully enumerated) and sampled on larger ones against oracles that implement the "
+                  "path-based definitions directly; larger graphs are only sampled.",
+    "level_note": "trusts harness/src/graphref.rs (definitions by reachability with a vertex deleted, Kahn's algorithm); dominance frontiers of vertices "
+                  "unreachable from the root, and missing roots, are not judged (the statement does not define them)",
+    "assumptions": [
+        "dominance frontier entries of vertices unreachable from the root are not judged",
+        "pre-order is accepted if it is a possible DFS pre-order; post-order if every reachable vertex appears once, the root last, and v precedes u for every edge u->v with no path back",
+        "compute_acyclic/compute_dfs_tree are judged by validity (sub-graph, acyclic/spanning, reachability preserved), not by a specific choice of edges",
+    ],
+}
+
 # properties not claimed, with the reason (everything else not in PROPS is 'not built yet')
 NOT_CLAIMED = {}
